@@ -274,7 +274,10 @@ def run(ctx):
         if m in ("add_classic_response", "add_rfc_response"):
             n = W.expand(a[2])
             # n = the Ok payload of this send (through the bytes_sent variable)
-            okn = values.contains(n, lambda s: is_call(s) and s[3] == (sr.path, sb))
+            # exactly the Ok payload of this iteration's send_to (possibly through a variable initialised to 0): no arithmetic on it
+            alts = n[1] if n[0] == "phi" else (n,)
+            alts = [uncast(x) for x in alts if x != ("int", 0)]
+            okn = len(alts) == 1 and alts[0][0] == "vfield" and alts[0][2] == "Ok" and is_call(alts[0][1]) and alts[0][1][3] == (sr.path, sb)
             rels = flow.rel_facts_at(SIN, bb)
             ctx.check("send-wiring", "%s/bytes-are-send-result" % m, okn, "bytes recorded = value returned by send_to", "bytes recorded are %s" % fmt(n), sr.loc(bb))
     # exactly one record per iteration: the success flag partitions
